@@ -622,25 +622,39 @@ func ruleC19Footnotes(c *Ctx) {
 	}
 	// the citation returned is built from that number (new) or the looked-up one (seen)
 	okCite := false
+	isNumberPhi := func(v ssa.Value) bool {
+		phi, ok := v.(*ssa.Phi)
+		if !ok {
+			return false
+		}
+		hasNew, hasOld := false, false
+		for _, e := range phi.Edges {
+			if c.resolve(e) == c.resolve(mapUpd.Value) {
+				hasNew = true
+			}
+			if ex, ok := e.(*ssa.Extract); ok && ex.Tuple == ssa.Value(lookup) && ex.Index == 0 {
+				hasOld = true
+			}
+		}
+		return hasNew && hasOld
+	}
 	for _, ret := range returnsOf(cc) {
 		for _, v := range c.resultValues(ret, 0) {
 			call, ok := c.resolve(v).(*ssa.Call)
-			if !ok || calleeQ(&call.Call) != "fmt.Sprintf" {
+			if !ok {
 				continue
 			}
-			for _, el := range c.sliceElemValues(call.Call.Args[1]) {
-				if mi, ok := el.(*ssa.MakeInterface); ok {
-					if phi, ok := mi.X.(*ssa.Phi); ok {
-						hasNew, hasOld := false, false
-						for _, e := range phi.Edges {
-							if c.resolve(e) == c.resolve(mapUpd.Value) {
-								hasNew = true
-							}
-							if ex, ok := e.(*ssa.Extract); ok && ex.Tuple == ssa.Value(lookup) && ex.Index == 0 {
-								hasOld = true
-							}
-						}
-						okCite = hasNew && hasOld
+			// fmt.Sprintf("[%d]", n) directly, or a module helper given n
+			if calleeQ(&call.Call) == "fmt.Sprintf" {
+				for _, el := range c.sliceElemValues(call.Call.Args[len(call.Call.Args)-1]) {
+					if mi, ok := el.(*ssa.MakeInterface); ok && isNumberPhi(mi.X) {
+						okCite = true
+					}
+				}
+			} else if cal := call.Call.StaticCallee(); cal != nil && c.inRuleScope(cal) {
+				for _, a := range call.Call.Args {
+					if isNumberPhi(a) {
+						okCite = true
 					}
 				}
 			}
@@ -672,21 +686,29 @@ func ruleC19Footnotes(c *Ctx) {
 	} else {
 		c.violate("C19.footnotes", "empty", cc.Pos(), name, "an empty footnote text is not answered with an empty citation")
 	}
-	// String: numbering by position
+	// String: numbering by position (index+1 formatted directly or through a module helper)
 	okPos := false
+	isPosPlusOne := func(v ssa.Value) bool {
+		bo, ok := v.(*ssa.BinOp)
+		return ok && bo.Op == token.ADD
+	}
 	for _, l := range loopsOf(str) {
 		for b := range l.Blocks {
 			for _, in := range b.Instrs {
 				call, ok := in.(*ssa.Call)
-				if !ok || calleeQ(&call.Call) != "fmt.Sprintf" {
+				if !ok {
 					continue
 				}
-				for _, el := range c.sliceElemValues(call.Call.Args[1]) {
-					if mi, ok := el.(*ssa.MakeInterface); ok {
-						if bo, ok := mi.X.(*ssa.BinOp); ok && bo.Op == token.ADD {
-							// (rangeindex + 1): rotated loop gives phi+1 then +1
+				if calleeQ(&call.Call) == "fmt.Sprintf" || calleeQ(&call.Call) == "fmt.Fprintf" {
+					for _, el := range c.sliceElemValues(call.Call.Args[len(call.Call.Args)-1]) {
+						if mi, ok := el.(*ssa.MakeInterface); ok && isPosPlusOne(mi.X) {
 							okPos = true
-							_ = bo
+						}
+					}
+				} else if cal := call.Call.StaticCallee(); cal != nil && c.inRuleScope(cal) {
+					for _, a := range call.Call.Args {
+						if isPosPlusOne(a) {
+							okPos = true
 						}
 					}
 				}
